@@ -753,6 +753,42 @@ pub fn generate(seed: u64, flavor: &str) -> RunSpec {
             }
         }
     }
+    // large style: haystacks of 300 bytes … 66 KB (the ordinary bound is 40, wide 160
+    // characters). Code that a change gates behind "the input is large" (buffer reuse above
+    // a threshold, chunked search, a different strategy) is outside every other style. The
+    // haystacks of one run share a target size just above a round threshold, and are made
+    // by repeating the corpus input, so matches stay dense and calls stay inside the step
+    // budget; the same large haystack recurs within the run (same-input-as-last-time paths).
+    let large = !cold_flavor && !wide && rng.chance(3, 100);
+    if large {
+        let target = *rng.pick(&[300usize, 1_100, 4_200, 9_000, 17_000, 66_000]);
+        for sc in scripts.iter_mut() {
+            for op in sc.iter_mut() {
+                let input = match op {
+                    Op::IsMatch { input, .. }
+                    | Op::ReplaceAll { input, .. }
+                    | Op::Tokenize { input, .. }
+                    | Op::Analyze { input, .. } => input,
+                    _ => continue,
+                };
+                if rng.chance(60, 100) {
+                    let unit = if input.is_empty() { " ".to_string() } else { input.clone() };
+                    let sep = *rng.pick(&["", "", " ", "\n"]);
+                    let mut long = String::with_capacity(target + unit.len() + 8);
+                    while long.len() < target {
+                        long.push_str(&unit);
+                        long.push_str(sep);
+                    }
+                    if rng.chance(30, 100) {
+                        // a tail that differs from the repeated unit
+                        let f = fams[rng.below(fams.len())];
+                        long.push_str(&pick_input0(&mut rng, f, &fams));
+                    }
+                    *input = long;
+                }
+            }
+        }
+    }
     // F11: simulated clock jumps inside calls, and simulated time passing between operations
     let mut jumps = Vec::new();
     if rng.chance(8, 100) {
